@@ -42,6 +42,7 @@ var (
 	c12batchEnt    = core.RegCounter("c12.batch_entries")
 	c12batchMixed  = core.RegCounter("c12.batches_mixing_valid_and_invalid")
 	c12batchBig    = core.RegCounter("c12.batches_with_95_or_more_entries")
+	c12again       = core.RegCounter("c12.batches_finished_again_without_reset")
 	c12batchReset  = core.RegCounter("c12.batch_verifier_reused_after_reset")
 	c12batchEmpty  = core.RegCounter("c12.empty_batches")
 	c12batchOnly   = core.RegCounter("c12.verify_batch_only_calls")
@@ -975,6 +976,15 @@ func c12BatchHistory(r *core.Run, e *Env, pool []*c12Tuple) {
 			doBO()
 			if len(r.Main.Fails()) == 0 {
 				doV()
+			}
+		}
+		// a batch is a value: finishing it again without Reset must give the same answers
+		for again := t.W(3); again > 0 && len(r.Main.Fails()) == 0; again-- {
+			r.Count(c12again)
+			if t.W(2) == 0 {
+				doV()
+			} else {
+				doBO()
 			}
 		}
 	}
